@@ -125,21 +125,25 @@ class C08(Prop):
     technique = ("Coq proof about a hand-written model of formatting.rs and of render()'s text composition, against an independent strict "
                  "exposition-format reader (Spec.v); differential correspondence on sanitisers, line writers and whole render() outputs, "
                  "and the reader evaluated on every implementation output")
-    level_text = ("Theorems (Coq, all strings over Unicode scalar values, all Units, unit suffix on and off, histogram and summary mode, any "
-                  "number of families/series/labels): sanitised metric and label names match the grammar and keep their length; the escape "
+    level_text = ("Theorems (Coq, all strings over Unicode scalar values, all Units, unit suffix on and off, global buckets on and off, every "
+                  "set of per-metric bucket overrides, any number of families/series/labels): sanitised metric and label names match the grammar and keep their length; the escape "
                   "machine's output is a concatenation of escape tokens for every input and every look-behind state, so the reader of an "
                   "independent strict exposition-format parser (Spec.v) consumes it entirely and takes the next quote as the closing one, and no "
                   "raw newline occurs; every sample/HELP/TYPE line written by the model is read back with exactly the sanitised label pairs in "
                   "order plus le/quantile; for every structured rendering satisfying the precondition the whole text parses line by line, has "
                   "exactly the expected number of HELP/TYPE/sample/blank lines (user data adds none) and satisfies the family rule "
-                  "(C08_family_structure), which the code before commit 9e605eb violated (C08_family_structure_refuted_before_fix). The model is "
+                  "(C08_family_structure), which the code before commit 9e605eb violated (C08_family_structure_refuted_before_fix); the word on "
+                  "the TYPE line and the kind of samples written are chosen by the same predicate of the base name for every override set "
+                  "(C08_type_line_matches_samples). The model is "
                   "tied to /repo by running the real sanitisers, line writers and PrometheusHandle::render() and the model on the same generated "
                   "cases each run, and the Spec.v reader is evaluated on every implementation output.")
     level_note = ("Trusted: Coq kernel; hand-written model (tied by differential runs, not by translation); the transcription of the format grammar in "
                   "Spec.v, which is stricter than the format (single spaces, no timestamps, no free comments) and does not check that label names "
                   "within one sample are distinct or differ from le/quantile (C07's precondition); number formatting (Display) is an oracle; the "
                   "grouping of keys into families and label sets (HashMap/IndexMap in get_recent_metrics) is input data of the rendering model and "
-                  "belongs to C07; summary quantile values are rendered only for empty summaries in the correspondence runs. The decoded label "
+                  "belongs to C07; in the correspondence runs histogram keys receive samples only under global buckets, so summaries and "
+                  "override-selected histograms are rendered empty (summary quantile values are not modelled); all overrides of one case share "
+                  "one list of bounds (which override wins is C15's business). The decoded label "
                   "value equals the original only for values without backslashes (C08_escape_faithful_without_backslash); with backslashes the "
                   "look-behind machine is lossy (a pending backslash before LF is reordered or, before a quote, dropped) but always well-formed.")
     assumptions = ["Display of u64/f64 is an oracle: formatted numbers are case data; the generator uses integer-valued doubles below 2^53 and simple bucket bounds, whose Display form python reproduces exactly",
